@@ -150,6 +150,46 @@ Proof.
   lia.
 Qed.
 
+(* the offset-advancing overload: the same number, and the count of units consumed *)
+Lemma hex_scan_cons : forall n d r n', hex_step n d = Some n' ->
+  hex_scan (d :: r) n = (fst (hex_scan r n'), S (snd (hex_scan r n'))).
+Proof. intros n d r n' H. cbn [hex_scan]. rewrite H. destruct (hex_scan r n'). reflexivity. Qed.
+
+Lemma hex_scan_stop : forall n d r, hex_step n d = None -> hex_scan (d :: r) n = (n, O).
+Proof. intros n d r H. cbn [hex_scan]. now rewrite H. Qed.
+
+Lemma hex_scan_fst : forall ds n, fst (hex_scan ds n) = hex_loop ds n.
+Proof.
+  induction ds as [|d r IH]; intros n; cbn [hex_scan hex_loop]; [reflexivity|].
+  destruct (hex_step n d) as [n'|]; [|reflexivity].
+  rewrite <- IH. destruct (hex_scan r n'). reflexivity.
+Qed.
+
+Lemma hex_scan_count : forall ds n, (snd (hex_scan ds n) <= length ds)%nat.
+Proof.
+  induction ds as [|d r IH]; intros n; cbn [hex_scan length]; [cbn; lia|].
+  destruct (hex_step n d) as [n'|]; [|cbn; lia].
+  specialize (IH n'). destruct (hex_scan r n'). cbn in *. lia.
+Qed.
+
+(* D93: a group of four hexadecimal digits (any letter case) is accepted with its value *)
+Lemma hex_group4_ok : forall k x rest, x < 65536 -> hex_group4 (hex4l k x ++ rest) = Some x.
+Proof.
+  intros k x rest Hx. unfold hex_group4, hex4l. cbn [app firstn].
+  erewrite hex_scan_cons by (apply (hex_step_ok 0); lia).
+  erewrite hex_scan_cons by (apply hex_step_ok; lia).
+  erewrite hex_scan_cons by (apply hex_step_ok; lia).
+  erewrite hex_scan_cons by (apply hex_step_ok; lia).
+  cbn [hex_scan fst snd Nat.eqb]. f_equal. lia.
+Qed.
+
+(* ... and a group with a unit that is not a hexadecimal digit among its four is rejected *)
+Lemma hex_group4_short : forall value, (snd (hex_scan (firstn 4 value) 0) < 4)%nat -> hex_group4 value = None.
+Proof.
+  intros value H. unfold hex_group4. destruct (hex_scan (firstn 4 value) 0) as [n c]. cbn [snd] in H.
+  destruct (Nat.eqb_spec c 4) as [E|E]; [lia|reflexivity].
+Qed.
+
 (* ------------------------------------------------------------------ *)
 (* the notation table is ASCII for the three widths                     *)
 
@@ -198,8 +238,8 @@ Qed.
 Lemma u_branch_bmp : forall w k x rest, x < 65536 -> is_high_surrogate x = false ->
   u_branch w (hex4l k x ++ rest) = UBOk (to_utf w x) rest 4.
 Proof.
-  intros w k x rest Hx Hs. unfold u_branch.
-  rewrite hex4_ok by exact Hx. rewrite Hs. reflexivity.
+  intros w k x rest Hx Hs. unfold u_branch. cbv zeta.
+  rewrite hex_group4_ok by exact Hx. rewrite Hs. reflexivity.
 Qed.
 
 (* a high surrogate followed by a second escape (backslash, u or U, four digits) *)
@@ -209,11 +249,11 @@ Lemma u_branch_pair : forall w k1 k2 hi lo (cap : bool) rest, validw w -> hi < 6
   = UBOk (to_utf w (recombine hi lo)) rest 10.
 Proof.
   intros w k1 k2 hi lo cap rest Hw Hh Hl Hs. unfold u_branch. rewrite (jnot_ascii w Hw). cbv zeta.
-  rewrite hex4_ok by exact Hh. rewrite Hs.
+  rewrite hex_group4_ok by exact Hh. rewrite Hs.
   change (skipn 4 (hex4l k1 hi ++ 92 :: (if cap then 85 else 117) :: hex4l k2 lo ++ rest))
     with (92 :: (if cap then 85 else 117) :: hex4l k2 lo ++ rest).
   change (skipn 2 (92 :: (if cap then 85 else 117) :: hex4l k2 lo ++ rest)) with (hex4l k2 lo ++ rest).
-  rewrite hex4_ok by exact Hl.
+  rewrite hex_group4_ok by exact Hl.
   destruct cap; reflexivity.
 Qed.
 
@@ -223,7 +263,7 @@ Lemma u_branch_lone : forall w k1 hi p q rest, validw w -> hi < 65536 -> is_high
   u_branch w (hex4l k1 hi ++ p :: q :: rest) = UBFail.
 Proof.
   intros w k1 hi p q rest Hw Hh Hs Hpq. unfold u_branch. rewrite (jnot_ascii w Hw). cbv zeta.
-  rewrite hex4_ok by exact Hh. rewrite Hs.
+  rewrite hex_group4_ok by exact Hh. rewrite Hs.
   change (skipn 4 (hex4l k1 hi ++ p :: q :: rest)) with (p :: q :: rest).
   cbn [negb low_escape_follows jbs ju jcu ascii_jnot]. rewrite Hpq. now rewrite andb_false_r.
 Qed.
@@ -404,12 +444,29 @@ Qed.
 
 Lemma u_branch_len : forall w r2 e r' adv, u_branch w r2 = UBOk e r' adv -> (length r' <= length r2)%nat.
 Proof.
-  intros w r2 e r' adv H. unfold u_branch in H.
+  intros w r2 e r' adv H. unfold u_branch in H. cbv zeta in H.
   destruct (Nat.ltb 3 (length r2)); [|discriminate].
+  destruct (hex_group4 r2) as [code|]; [|discriminate].
   destruct (negb _).
   - assert (E : r' = skipn 4 r2) by congruence. rewrite E, skipn_length. lia.
   - destruct (Nat.ltb 5 _ && _); [|discriminate].
+    destruct (hex_group4 _) as [low|]; [|discriminate].
     assert (E : r' = skipn 4 (skipn 2 (skipn 4 r2))) by congruence. rewrite E, !skipn_length. lia.
+Qed.
+
+(* D93: an escape whose digit group is short fails, in either half *)
+Lemma u_branch_short : forall w r2, hex_group4 r2 = None -> u_branch w r2 = UBFail.
+Proof. intros w r2 H. unfold u_branch. cbv zeta. rewrite H. now destruct (Nat.ltb 3 (length r2)). Qed.
+
+Lemma u_branch_short_low : forall w k1 hi (cap : bool) r4, validw w -> hi < 65536 ->
+  is_high_surrogate hi = true -> hex_group4 r4 = None ->
+  u_branch w (hex4l k1 hi ++ 92 :: (if cap then 85 else 117) :: r4) = UBFail.
+Proof.
+  intros w k1 hi cap r4 Hw Hh Hs Hl. unfold u_branch. cbv zeta.
+  rewrite hex_group4_ok by exact Hh. rewrite Hs. cbn [negb].
+  change (skipn 4 (hex4l k1 hi ++ 92 :: (if cap then 85 else 117) :: r4)) with (92 :: (if cap then 85 else 117) :: r4).
+  change (skipn 2 (92 :: (if cap then 85 else 117) :: r4)) with r4. rewrite Hl.
+  repeat match goal with |- context [if ?c then _ else _] => destruct c end; reflexivity.
 Qed.
 
 Lemma unesc_fuel_ok : forall fuel cl w rest off pend stream,
@@ -430,6 +487,13 @@ Qed.
 
 Lemma unescape_total : forall cl w content, unescape cl w content <> UFuel.
 Proof. intros cl w content. unfold unescape. apply unesc_fuel_ok. lia. Qed.
+
+(* wchar_t selects one of the three modelled encoders (by the platform's sizeof(wchar_t)) *)
+Lemma wchar_width_valid : validw (c20_width 5).
+Proof. first [left; reflexivity | right; left; reflexivity | right; right; reflexivity]. Qed.
+
+Lemma width_kinds : c20_width 1 = 1 /\ c20_width 2 = 2 /\ c20_width 4 = 4.
+Proof. repeat split; reflexivity. Qed.
 
 (* ------------------------------------------------------------------ *)
 (* non-vacuity / witnesses                                              *)
@@ -465,6 +529,18 @@ Proof. vm_compute. reflexivity. Qed.
 Example d92_lone_high_at_end : c20_model_raw 2 [92; 117; 100; 56; 48; 48] = PFail.
 Proof. vm_compute. reflexivity. Qed.
 Example d92_second_escape_value_unchecked :
+  c20_model_raw 1 [92; 117; 100; 56; 48; 48; 92; 117; 48; 48; 52; 49] = PStr [0xF0; 0x90; 0x81; 0x81].
+Proof. vm_compute. reflexivity. Qed.
+(* D93: every \uXXXX group has to be four hexadecimal digits.  \u1 followed by the closing quote
+   (the body of ["\u1","abcd"] up to the comma), \u00zz, a pair with a short low half: failure;
+   four digits in the low half: still joined whatever their value *)
+Example d93_one_digit : parse_string_value 1 [92; 117; 49; 34; 44; 34; 97; 98; 99; 100; 34; 93] = PFail.
+Proof. vm_compute. reflexivity. Qed.
+Example d93_two_digits_then_letters : c20_model_raw 1 [92; 117; 48; 48; 122; 122] = PFail.
+Proof. vm_compute. reflexivity. Qed.
+Example d93_short_low_half : c20_model_raw 2 [92; 117; 100; 56; 48; 48; 92; 117; 100; 99; 48; 120] = PFail.
+Proof. vm_compute. reflexivity. Qed.
+Example d93_low_half_four_digits_any_value :
   c20_model_raw 1 [92; 117; 100; 56; 48; 48; 92; 117; 48; 48; 52; 49] = PStr [0xF0; 0x90; 0x81; 0x81].
 Proof. vm_compute. reflexivity. Qed.
 (* a malformed escape, a backslash at the end, a missing closing quote: failure *)
